@@ -405,6 +405,10 @@ def generate(rng, index, tier):
             # any of the filter classes, also a composite over two groups
             # of time points; the times are in no particular order
             from .c19 import FILTERS
+            # (a mixture filter with its two kernels needs an even number
+            # of simulated individuals)
+            FILTERS = [f_ for f_ in sorted(FILTERS)
+                       if f_ != 'GM' or n_sim % 2 == 0]
             user_filter = 'fflt'
             d = [[row[:len(ts)] for row in ind[:n_out]] for ind in fdat]
             if len(ts) >= 2 and rng.random() < 0.5:
